@@ -88,7 +88,8 @@ Failed ==
   \cup (IF DedupOk /\ Run.dedup2.res = "ok" /\ R3 # R2 THEN {"C04.Idempotent"} ELSE {})
   \cup (IF DedupOk /\ Run.dedup2.res # "ok" THEN {"C04.SecondRunSucceeds"} ELSE {})
   \cup (IF DedupOk /\ ~C04_Naming(Reg, R2) THEN {"C04.Naming"} ELSE {})
-  \cup (IF IsFamily /\ Unfaithful2 # {} THEN {"C03.FaithfulAfterDedup"} ELSE {})
+  \* (wire fidelity is stated for settings with codec attributes on: without them compact fields carry no marker)
+  \cup (IF IsFamily /\ S.codec /\ Unfaithful2 # {} THEN {"C03.FaithfulAfterDedup"} ELSE {})
   \cup (IF IsFamily /\ Conflated2 # {} THEN {"C03.DedupLeavesConflation"} ELSE {})
   \cup (IF IsFamily /\ DedupOk /\ Run.gen2.res \notin {"ok", "DuplicateTypePath"} THEN {"C03.OkOrDuplicateAfterDedup"} ELSE {})
 
